@@ -96,7 +96,7 @@ def SYNC(signal_rx: electrical_signal | np.ndarray,
         raise BufferError('The length of the received vector must be greater than the transmitted vector!!')
 
     l = signal_tx.size
-    corr = sg.fftconvolve(signal_rx[:2*l], signal_tx[l::-1], mode='valid') # Correlation of the transmitted signal with the received signal in a window of 2*l (sufficient to find a maximum)
+    corr = sg.fftconvolve(signal_rx[:2*l-1], signal_tx[l::-1], mode='valid') # Correlation of the transmitted signal with the received signal in a window of 2*l (sufficient to find a maximum)
 
     if np.max(corr) < 3*np.std(corr): 
         raise ValueError('No correlation maximum found!!') # false positive
